@@ -290,7 +290,8 @@ impl<'t, D: Distance> Reader<'t, D> {
         // The number of root nodes + log2 of the total number of vectors.
         let mut queue =
             BinaryHeap::with_capacity(self.roots.len() + self.items.len().ilog2() as usize);
-        let search_k = opt.search_k.map_or(opt.count * self.roots.len(), NonZeroUsize::get);
+        let search_k =
+            opt.search_k.map_or(opt.count.saturating_mul(self.roots.len()), NonZeroUsize::get);
         let search_k = opt
             .oversampling
             .map_or(search_k.saturating_mul(D::DEFAULT_OVERSAMPLING), |oversampling| {
